@@ -21,7 +21,7 @@ META = dict(
     "nearest grid point of the clamped input, everything else must be a grid point nearest to the clamped input to within the "
     "six significant digits the conversion keeps (ties up for a non-negative quotient), inside the range when the bounds "
     "are on the grid, of the right python type; unconvertible inputs must raise FormatError and nothing else; both seams "
-    "must agree Every evaluation is repeated on a characteristic whose metadata was assigned, and one whose metadata was changed, after construction (the BLE model-building path); integer formats with fractional declared steps are judged exactly for on-grid integer inputs.",
+    "must agree Every evaluation is repeated on a characteristic whose metadata was assigned, and one whose metadata was changed, after construction (the BLE model-building path); integer formats with fractional declared steps are judged exactly for on-grid integer inputs. Also: integer-valued inputs carried by bool / IntEnum / int subclass / Decimal; the calling thread's decimal context (five contexts, results judged by the property).",
     note="the for-all over all numbers is not enumerable: coverage is the declared alphabet (every boundary the code or the "
     "statement distinguishes: ties, 6/7-digit boundary, powers of two and ten, bounds, signs); weakest readings: negative-"
     "quotient ties and step-less integer ties accept either neighbour, float inputs are accepted under their decimal or their "
